@@ -10,14 +10,15 @@ Import ListNotations.
    known_findings `C18-lazy-restart-on-rejected-message`); the restart is now persisted only with the
    accepted message's own save. *)
 Theorem C18_refused_message_writes_nothing :
-  forall now st m h,
-  process_message now {| h_st := st; h_tr := [] |} m = RErr h ->
+  forall put now st m h,
+  process_message put now {| h_st := st; h_tr := [] |} m = RErr h ->
   no_state_writes (h_tr h).
 Proof. exact refused_message_writes_nothing. Qed.
 Print Assumptions C18_refused_message_writes_nothing.
-(* the same for the whole handler of a board message, the operation pool included (holds since the
-   repair of OperationService.PutOperation: before it the handler reported an error AFTER the round
-   had been saved when the very same operation was still pending) *)
+(* the same for the whole handler of a board message, the operation pool included (before the
+   repairs of the handler it could report an error AFTER the round had been saved, when the very
+   same operation was still pending; now the operation is put before the round is saved, and
+   putting a pending operation again is no error) *)
 Theorem C18_refused_board_message_writes_nothing :
   forall now st m h,
   process_board_message now {| h_st := st; h_tr := [] |} m = RErr h ->
